@@ -15,8 +15,9 @@
    - The char-level std calls (`trim_start_matches(|ch| ch <= ' ')`, `trim_end_matches`, `trim_matches`
      with a `matches!(c, ' ' | ..)` closure, `starts_with(';')`) only ever match ASCII chars.  An ASCII
      char is one byte and no byte of a multi-byte encoding is below 0x80, so on valid UTF-8 they are the
-     same functions on the byte list; that is how they are written here (bridge lemmas in
-     Proofs/C17_Total.v: du_trim_start_chars, du_trim_end_chars).
+     same functions on the byte list; that is how they are written here (bridge lemma
+     Proofs/C17_Bridge.v du_trim_start_chars for the leading trim; C17_pretend_parse ties the whole of
+     pretend_parse_data_url to the code-point-level URL parser model).
    - The String built by parse_header receives `byte as char` only for bytes in 0x20..0x7E and
      otherwise '%' and two HEX_UPPER digits: it is ASCII, its code points are its bytes, and it is
      handed to Model.Mime.parse as a code point list.
